@@ -72,7 +72,7 @@ TEXT = {
         "engine": "fault",
         "technique": "runtime fault injection at every numbered write/fsync call (before / after the device effect) with online oracles and recovery of the resulting device images in fresh processes",
         "level_text": "Five deterministic workloads; for each, every single I/O call of the faulted phase fails once before and once after taking effect (exhaustive singles), plus persistent failure from every (third, in quick) call on, seeded pairs, and per-class bursts of 1-3 failures (journal/data/marker/metadata writes, fsync); on the io_uring pass additionally every io_uring_enter call fails once with EINTR, three times in a row with EINTR, once with EIO, and EINTR combined with a failed SQE. Per plan: writes are never refused, every get equals the model, flush()==Ok implies the durable prefix recovers to exactly the model, after every flush attempt both the durable prefix and the file as it stands recover (fresh process) to per-key states within [last acknowledged, latest], after faults stop flush succeeds (after an indeterminate failure: after reopening in a new process) and the space partition is intact.",
-        "level_note": "Trusted: H1 decision hook and trace, the crash model for the durable prefix, single-writer model of the workload. Two passes: the synchronous path (before/after semantics exact) and the io_uring path, where a failed SQE is completed by the kernel with EBADF (never 'after') and io_uring_enter is made to fail with EINTR (must be retried) or EIO (indeterminate outcome, judged after reopening in a fresh process); the second pass also follows every buffer handed to the kernel (queued / completion reaped / reference dropped) and fails if the I/O layer drops one that is still in flight.",
+        "level_note": "Trusted: H1 decision hook and trace, the crash model for the durable prefix, single-writer model of the workload. After an Ok flush the image is also judged under the strict fsync model (what a failed fsync covered is lost unless written again), and every trace is checked against the two-slot journal discipline (generations rise, successful journal writes alternate slots, no attempt targets the slot of the last successful image). Two passes: the synchronous path (before/after semantics exact) and the io_uring path, where a failed SQE is completed by the kernel with EBADF (never 'after') and io_uring_enter is made to fail with EINTR (must be retried) or EIO (indeterminate outcome, judged after reopening in a fresh process); the second pass also follows every buffer handed to the kernel (queued / completion reaped / reference dropped) and fails if the I/O layer drops one that is still in flight.",
     },
     "C18": {
         "engine": "live",
